@@ -43,6 +43,11 @@ class _Rewrite(ast.NodeTransformer):
             if f == 'same_loc' and any(isinstance(x, ast.Call) and isinstance(x.func, ast.Name) and x.func.id == 'old'
                                        for a in n.args for x in ast.walk(a)):
                 return ast.Constant(True)      # identity with the pre-state object: decided deductively only
+            if f == 'implies' and len(n.args) == 2:
+                a = self.visit(n.args[0])
+                b_ = self.visit(n.args[1])
+                return ast.BoolOp(ast.Or(), [ast.UnaryOp(ast.Not(), ast.Call(ast.Name('bool', ast.Load()), [a], [])),
+                                             ast.Call(ast.Name('bool', ast.Load()), [b_], [])])      # lazy, like the symbolic evaluator
             if f == 'old':
                 self.in_old += 1
                 inner = self.visit(n.args[0])
